@@ -838,6 +838,19 @@ def accessor_rows(sto):
             rows.append((fn, "unknown", f"NOT RECOGNISED: {ex}"))
     return rows
 
+
+def event_iter_template(wtoks):
+    params, lo, hi = find_fn(wtoks, "section_event_iter")
+    ts = toks_of(wtoks, lo, hi)
+    text = " ".join(ts)
+    block = re.search(r"fn next \( & mut self \) -> Option < Self :: Item > \{ # \( if self \. which == # index as ArchetypeId \{ "
+                      r"match self \. # iter \. next \( \) \{ Some \( next \) => return Some \( next \. into \( \) \) , None => # next ,? \} \} \) \* (None) \}", text)
+    sched = re.search(r"for _ in 0 \.\. _world_data \. archetypes \. len \( \) - 1 \{ next \. push \( quote ! \( self \. which \+= 1 \) \) ; \} "
+                      r"next \. push \( quote ! \( \{ \} \) \) ;", text)
+    ok = block is not None
+    return ("{ blockOk := %s, tailNone := %s, incAllButLast := %s, lastEmpty := %s }" %
+            (("true" if ok else "false"), ("true" if ok else "false"), ("true" if sched else "false"), ("true" if sched else "false")))
+
 SLOT = [
     DBG,
     (r"^self \. index = SlotIndex :: new_data \( p0 \) ;$", "indexNewData", None),
@@ -1066,6 +1079,11 @@ def extract_steps():
         lines.append(f"  ⟨.{src_}, .{car}, {kind}⟩{',' if k + 1 < len(wtf) else ''}   -- {src.replace('-/', '- /')[:140]}")
     lines.append("]")
     parts.append("\n".join(lines))
+    try:
+        rec = event_iter_template(wtoks)
+    except (ExtractError, IndexError, ValueError, NameError) as ex:
+        rec = "{ blockOk := false, tailNone := false, incAllButLast := false, lastEmpty := false }   -- NOT RECOGNISED: " + str(ex)[:120]
+    parts.append("/-- macros/src/generate/world.rs `section_event_iter`: skeleton of the generated `EcsEventIterator::next` -/\ndef evT : EvT :=\n  " + rec)
     # --- with_capacity (statements + literal) and clear_events
     try:
         params, lo, hi = find_fn(sto, "with_capacity")
@@ -1138,7 +1156,7 @@ def extract_steps():
     head = ("/- GENERATED by tools/extract.py (tools/extract_steps.py) from /repo/src/archetype/{storage.rs, slot.rs} on every run.\n"
             "   Do not edit.  The statements of the mutating primitives, classified and listed in source order; meaning:\n"
             "   Gecs/Model/Steps.lean; tie theorems: Gecs/Lemmas/GenSteps.lean. -/\n"
-            "import Gecs.Model.Steps\nimport Gecs.Model.ResolveSteps\nimport Gecs.Model.CloneSteps\nimport Gecs.Model.PushSteps\nimport Gecs.Model.KeySteps\nimport Gecs.Model.InitSteps\nimport Gecs.Model.IterSteps\nimport Gecs.Model.LoopSteps\nimport Gecs.Model.BindSteps\nimport Gecs.Model.FindSteps\nimport Gecs.Model.MemSteps\nimport Gecs.Model.FreeListSteps\nimport Gecs.Model.DispatchSteps\nimport Gecs.Model.AccessSteps\n\nnamespace Gecs.Gen\n\n")
+            "import Gecs.Model.Steps\nimport Gecs.Model.ResolveSteps\nimport Gecs.Model.CloneSteps\nimport Gecs.Model.PushSteps\nimport Gecs.Model.KeySteps\nimport Gecs.Model.InitSteps\nimport Gecs.Model.IterSteps\nimport Gecs.Model.LoopSteps\nimport Gecs.Model.BindSteps\nimport Gecs.Model.FindSteps\nimport Gecs.Model.MemSteps\nimport Gecs.Model.FreeListSteps\nimport Gecs.Model.DispatchSteps\nimport Gecs.Model.AccessSteps\nimport Gecs.Model.EventIterSteps\n\nnamespace Gecs.Gen\n\n")
     return head + "\n\n".join(parts) + "\n\nend Gecs.Gen\n"
 
 
